@@ -37,9 +37,29 @@ def build(variant, pkg):
     return os.path.join(d, "libxplugin.so" if pkg == "xplugin" else "rt")
 
 
+def validate_alloc(c, path, label, what):
+    """impl -> spec: the merged allocator log of host and plugin must be a behaviour of spec/Modules.tla (every free
+    reaches the allocator that owns the block, with the allocated size; both modules balanced at every quiescent marker)"""
+    if not os.path.exists(path):
+        raise lib.ToolError("no allocator trace written: " + path)
+    nev = sum(1 for _ in open(path))
+    r = lib.run_tlc("Trace_Modules", "Trace_Modules.cfg", name="alloc_%s" % os.path.basename(path), workers=1, env={"TRACE": path}, depth_first=True, timeout=1200)
+    if r.violation or r.distinct < nev + 1:
+        evs = open(path).read().splitlines()
+        bad = evs[r.depth - 1] if 0 < r.depth <= len(evs) else ""
+        keep = os.path.join(lib.workdir("c05"), "rejected_" + os.path.basename(path))
+        os.replace(path, keep)
+        c.violation("allocator log of %s %s rejected by spec/Modules.tla at event %d: %s [%s]" % (what, label, r.depth, bad[:300], r.violation), None, replay_path=keep)
+        return 0
+    c.cov["traces_validated_against_impl"] += 1
+    c.add_tlc("Trace_Modules.cfg(%s)" % what, r, exhaustive=False)
+    os.remove(path)
+    return nev
+
+
 def obj_replay(c, rt, plugin, jsonl, nslots, label, parts=4):
     pieces = lib.split_file(jsonl, parts, jsonl + ".xpart")
-    cmds = [[rt, "obj", "replay", p, "--slots", str(nslots), "--ctx", "1", "--plugin", plugin] for p in pieces]
+    cmds = [[rt, "obj", "replay", p, "--slots", str(nslots), "--ctx", "1", "--plugin", plugin, "--alloc-trace", p + ".alloc.ndjson"] for p in pieces]
     tb = ts = known = 0
     for (rc, summ, out), p in zip(lib.run_parallel(cmds, timeout=3000), pieces):
         if rc == 2 or rc == 124:
@@ -53,8 +73,12 @@ def obj_replay(c, rt, plugin, jsonl, nslots, label, parts=4):
         for f in summ["first_failures"][:1]:
             f["label"] = label
             c.violation("across modules %s, step %s: %s" % (label, f["step"], f["msg"]), f)
+    nal = 0
     for p in pieces:
+        if os.path.exists(p + ".alloc.ndjson"):
+            nal += validate_alloc(c, p + ".alloc.ndjson", label, "object behaviours")
         os.remove(p)
+    c.cov["alloc_events_validated"] = c.cov.get("alloc_events_validated", 0) + nal
     return tb, ts, known
 
 
@@ -65,6 +89,12 @@ def run(tier):
     # the design is the one checked for C06/C07/C11: the same specifications, values created in another module
     lib.mc_step(c, "MC_CGlueObj", "MC_CGlueObj_q.cfg", workers=12, timeout=3400, what="CGlueObj spec")
     lib.mc_step(c, "MC_CGlueObj", "MC_CGlueObj_cast.cfg", workers=12, timeout=1800, what="CGlueObj spec (failing casts)")
+    # memory ownership between modules: the design, and the deviation that must break it (guards against a vacuous spec)
+    lib.mc_step(c, "MC_Modules", "MC_Modules.cfg", workers=4, timeout=600, what="Modules spec")
+    d = lib.run_tlc("MC_Modules", "MC_Modules_dev.cfg", workers=2, timeout=300)
+    if not d.violation:
+        raise lib.ToolError("deviation foreign_free does not violate NoForeignFree: spec is vacuous")
+    c.cov["deviation_witness"] = "MC_Modules_dev.cfg: " + d.violation
     j1, n1 = lib.gen_step(c, "Gen_CGlueObj", "Gen_CGlueObj_d2.cfg", "gen_obj_d2")
     j2, n2 = lib.gen_step(c, "Gen_CGlueObj", "Gen_CGlueObj.cfg", "gen_obj_sim", simulate="num=%d" % (20 if quick else 200), workers=4, seed_=lib.seed())
     jv, nv = lib.gen_step(c, "Gen_CVec", "Gen_CVec.cfg", "gen_cvec_x")
@@ -89,10 +119,19 @@ def run(tier):
             b, s, k = obj_replay(c, rt, so, jsonl, ns, label)
             tb += b
             ts += s
-        b, s = lib.replay_step(c, rt, ["vec"], jv, ["--elem", "u64", "--plugin", so], parts=4, label=label,
+        b, s = lib.replay_step(c, rt, ["vec"], jv, ["--elem", "u64", "--plugin", so, "--alloc-trace", "{part}.alloc.ndjson"], parts=4, label=label,
                                what="CVec created in the plugin diverges from the specification")
         tb += b
         ts += s
+        import glob
+        for at in sorted(glob.glob(jv + ".part*.alloc.ndjson")):
+            c.cov["alloc_events_validated"] = c.cov.get("alloc_events_validated", 0) + validate_alloc(c, at, label, "vector behaviours")
+        xt = os.path.join(lib.workdir("c05"), "xmod_scripts.alloc.ndjson")
+        rc, summ, out = lib.run_adapter([rt, "xmod", "trace", xt, "--plugin", so])
+        if rc != 0:
+            c.violation("runtime-type scripts crashed %s while recording the allocator log (rc=%s)" % (label, rc), {"label": label})
+        else:
+            c.cov["alloc_events_validated"] = c.cov.get("alloc_events_validated", 0) + validate_alloc(c, xt, label, "runtime-type scripts")
         rc, summ, out = lib.run_adapter([rt, "xmod", "misc", "--plugin", so])
         if rc != 0 or summ is None:
             c.violation("runtime-type scripts crashed %s (rc=%s)" % (label, rc), {"label": label})
